@@ -28,4 +28,4 @@ pub(crate) fn version(bytes: &[u8]) -> HpoResult<Bytes> {
 
 #[cfg(kani)]
 #[path = "/verif/kani/binary_ontology.rs"]
-mod verif_kani;
+pub(crate) mod verif_kani;
